@@ -152,15 +152,20 @@ def handle (req : Sexp) : Sexp :=
     match evalE a, evalE b with
     | some a, some b =>
       if tool == "modelsearch" || tool == "other" then
-        exc (fun r => match r with
-          | some v => Sexp.ofBool v
-          | none => .atom "none") (do MF.containSubset (← a) (← b) (tool == "modelsearch"))
+        exc Sexp.ofBool (do MF.containSubset (← a) (← b) (tool == "modelsearch"))
       else bad
     | _, _ => bad
-  | .list [.atom "lnt", a, b] =>
+  | .list [.atom "lnt", a, b, .atom tool] =>
     match evalE a, evalE b with
-    | some a, some b => exc keysS (do MF.lnt (← a) (← b))
+    | some a, some b =>
+      if tool == "modelsearch" || tool == "none" then
+        exc keysS (do MF.lnt (← a) (← b) (tool == "modelsearch"))
+      else bad
     | _, _ => bad
+  | .list [.atom "teq", .list [c1, d1], .list [c2, d2]] =>
+    match nats? c1, modes? d1, nats? c2, modes? d2 with
+    | some c1, some d1, some c2, some d2 => exc Sexp.ofBool (Transits.eq ⟨c1, d1⟩ ⟨c2, d2⟩)
+    | _, _, _, _ => bad
   | .list [.atom "sadd", k, a, b] =>
     match kind? k, modes? a, modes? b with
     | some k, some a, some b => exc modesS (modesAdd k a b)
